@@ -43,6 +43,7 @@ type concCase struct {
 	Batch    []Scenario   `json:"batch,omitempty"`
 	Duplex   []duplexSpec `json:"duplex,omitempty"`
 	Procs    int          `json:"procs"`
+	Prelude int `json:"prelude,omitempty"` // the first Prelude RPCs (in Order) run sequentially before the others start
 	Order    []int        `json:"order,omitempty"`
 }
 
@@ -106,12 +107,24 @@ func TestC14(t *testing.T) {
 					if sc.Client.Compression == "" {
 						sc.Client.Compression = CompGzip
 					}
-					sc.Client.Fault = &Fault{Kind: FaultBitFlip, At: rapid.IntRange(8, 100).Draw(t, "bitflip_at"), Val: rapid.IntRange(0, 7).Draw(t, "bitflip_bit")}
+					sc.Client.Fault = &Fault{Kind: FaultBitFlip, At: rapid.IntRange(0, 100).Draw(t, "bitflip_at"), Val: rapid.IntRange(0, 7).Draw(t, "bitflip_bit")}
 				}
 				sc.Config = cfg
 				c.Batch = append(c.Batch, sc)
 			}
 			c.Order = rapid.Permutation(intRange(n)).Draw(t, "start_order")
+			if n >= 3 && rapid.Bool().Draw(t, "with_prelude") {
+				c.Prelude = rapid.IntRange(1, minInt(3, n-2)).Draw(t, "prelude")
+				for _, i := range c.Order[:c.Prelude] {
+					// the prelude is made of requests that fail inside the transcoder
+					sc := &c.Batch[i]
+					if sc.Client.Compression == "" {
+						sc.Client.Compression = CompGzip
+					}
+					sc.Client.MsgRaw = nil
+					sc.Client.Fault = &Fault{Kind: FaultBitFlip, At: rapid.IntRange(0, 12).Draw(t, "prelude_bitflip_at"), Val: rapid.IntRange(0, 7).Draw(t, "prelude_bit")}
+				}
+			}
 		}
 		judge(t, "C14", c, checkC14(c))
 	})
@@ -385,6 +398,9 @@ func duplexHandler(specFor func(r *http.Request) duplexSpec) http.Handler {
 
 func checkC14(c *concCase) *CheckResult {
 	res := &CheckResult{}
+	takeCompMisuse() // forget what earlier cases left
+	atomic.StoreInt32(&compStretch, 1)
+	defer atomic.StoreInt32(&compStretch, 0)
 	raw, _ := json.Marshal(c)
 	res.Key = string(raw)
 	prev := runtime.GOMAXPROCS(0)
@@ -489,7 +505,16 @@ func checkC14(c *concCase) *CheckResult {
 		if len(order) != len(c.Batch) {
 			order = intRange(len(c.Batch))
 		}
-		for _, i := range order {
+		// a prelude of the batch runs to completion, one RPC after the other, before the rest starts
+		// concurrently: whatever a failing request leaves behind in the pools is in place by then
+		prelude := c.Prelude
+		if prelude > len(order)-2 {
+			prelude = 0
+		}
+		for _, i := range order[:prelude] {
+			conc[i], outs[i] = observeProbe(&c.Batch[i], shared)
+		}
+		for _, i := range order[prelude:] {
 			wg.Add(1)
 			go func(i int) {
 				defer wg.Done()
@@ -513,6 +538,12 @@ func checkC14(c *concCase) *CheckResult {
 			if d := solo[i].client.diff(conc[i].client); len(d) > 0 {
 				res.violate("not_isolated", "c14:outcome", "RPC %d of %d (%s %s): outcome when run concurrently differs from its solo run: %s", i, len(c.Batch), c.Batch[i].Client.Form, c.Batch[i].Client.Method, strings.Join(d, "; "))
 			}
+			if it := &c.Batch[i]; it.Client.Fault == nil && it.Backend.Fault == nil && it.Backend.Kind == "ok" && it.Note == "" && !anyTrue(it.Client.MsgRaw) && !anyTrue(it.Backend.MsgRaw) && strings.HasPrefix(conc[i].client.Outcome, "err:") {
+				// (absolute, not relative to the solo run: a defect that breaks both the same way - e.g. data
+				// decoded from a buffer already released, which the poisoning pool turns into garbage - would
+				// otherwise compare equal)
+				res.violate("valid_failed", "c14:valid_failed", "RPC %d of %d (%s %s): a valid exchange with a compliant backend answering OK ended %s (HTTP %d)", i, len(c.Batch), it.Client.Form, it.Client.Method, conc[i].client.Outcome, conc[i].client.Status)
+			}
 			if solo[i].backend != conc[i].backend {
 				res.violate("not_isolated", "c14:backend", "RPC %d of %d (%s %s): backend observed a different request when run concurrently", i, len(c.Batch), c.Batch[i].Client.Form, c.Batch[i].Client.Method)
 			}
@@ -520,6 +551,9 @@ func checkC14(c *concCase) *CheckResult {
 		res.NonTrivial = len(c.Batch) >= 2
 		res.class("batch n=%d procs=%d", len(c.Batch), c.Procs)
 		res.Sample = map[string]any{"batch_size": len(c.Batch), "procs": c.Procs, "forms": batchForms(c.Batch)}
+	}
+	for _, n := range takeCompMisuse() {
+		res.violate("compressor_shared", "c14:comp:shared", "%s", n)
 	}
 	st := vanguard.VerifPoolSnapshot(true)
 	if st.DoublePuts > 0 {
@@ -553,3 +587,14 @@ func batchForms(b []Scenario) string {
 	}
 	return fmt.Sprint(m)
 }
+
+
+func anyTrue(bs []bool) bool {
+	for _, b := range bs {
+		if b {
+			return true
+		}
+	}
+	return false
+}
+
